@@ -8,4 +8,7 @@ CONSTANTS
   BodyKinds = {"empty", "valid", "truncated", "badenc", "hookfail", "blank", "padded"}
   CacheError = TRUE
   CacheDefault = FALSE
+  HandlerDecidesEmpty = TRUE
+  KeepFirstError = TRUE
+  Contexts = {"plain", "except", "exceptself", "mw", "errh"}
 INVARIANT Sound
